@@ -2,6 +2,7 @@ package harness
 
 import (
 	"bytes"
+	"crypto"
 	"crypto/rand"
 	"crypto/x509"
 	"encoding/base64"
@@ -36,6 +37,8 @@ type c13Result struct {
 	Notes    []string        `json:"notes,omitempty"`
 	// a string that is not one of the eight URIs was read as one of them, consistently: the message verifies
 	Tolerated bool `json:"tolerated_near_miss,omitempty"`
+	// the certificates of the published signing KeyDescriptor, named as the model names them (leaf, ca1, ca2)
+	Published []string `json:"published_signing_certificates,omitempty"`
 }
 
 // c13Message decodes the emitted wire form to the message's root element.
@@ -132,6 +135,8 @@ func c13Judge(s *saml.ServiceProvider, v *spemitVec, c *spemitConc, e *spemitEmi
 	if nearMiss {
 		mk = fmt.Sprintf("method=%s:form=%s:key=%s", v.Cfg.Method, v.Cfg.MForm, v.Cfg.Key)
 	}
+	// the environment (what the IdP's metadata wants, the SP's certificate chain) where it is not the default
+	mk += v.envSuffix()
 	add := func(key, clause string) {
 		res.Findings = append(res.Findings, spemitFinding{Key: key, Clause: clause})
 	}
@@ -204,13 +209,19 @@ func c13Judge(s *saml.ServiceProvider, v *spemitVec, c *spemitConc, e *spemitEmi
 		add("C13:"+kb+":refuses-valid:"+mk, fmt.Sprintf("supported method %q with a fitting %s key was refused: %v", c.MethodURI, v.Cfg.Key, e.Err))
 		return res
 	}
-	cert, _, err := spemitPublishedCert(s)
+	// "the certificate in the SP's published metadata": the first certificate of the signing KeyDescriptor.
+	// Every signature below is verified under THAT certificate, whatever else the descriptor lists.
+	chain, _, err := spemitPublishedChain(s)
 	if err != nil {
-		add("C13:metadata:no-signing-certificate:"+mk, "with signing configured the published metadata must carry exactly one signing certificate: "+err.Error())
+		add("C13:metadata:no-signing-certificate:"+mk, "with signing configured the published metadata must carry one signing key descriptor with the SP's certificate: "+err.Error())
 		return res
 	}
+	cert := chain[0]
+	for _, pc := range chain {
+		res.Published = append(res.Published, spemitCertName(pc, s))
+	}
 	if !bytes.Equal(cert.Raw, s.Certificate.Raw) {
-		res.Notes = append(res.Notes, "published certificate differs from the configured one")
+		res.Notes = append(res.Notes, fmt.Sprintf("the first published signing certificate (%s, %q) is not the configured sp.Certificate", res.Published[0], cert.Subject.CommonName))
 	}
 	root, rawQuery, err := c13Message(e, v)
 	if err != nil {
@@ -288,6 +299,10 @@ func c13NamedMethod(c *spemitConc) string {
 	return c.MethodURI
 }
 
+// the environment classes of spec/SPEmit.tla (IdpWants, Chains) for the history families, which draw them
+var c13EnvWants = []string{"absent", "true", "false"}
+var c13EnvChains = []string{"none", "one", "two"}
+
 func truncate(s string, n int) string {
 	if len(s) > n {
 		return s[:n] + "..."
@@ -298,7 +313,7 @@ func truncate(s string, n int) string {
 func TestC13(t *testing.T) {
 	rep := NewReport("C13")
 	defer rep.Finish(t)
-	rep.Rule = "every terminal state of spec/SPEmit.tla family sig (8 method URIs + unknown + unset x 7 keys x AuthnRequest/LogoutRequest/LogoutResponse in both bindings + ArtifactResolve x relay-state classes x endpoint query) is run through the real Make* functions; MustAccept = supported method with a key of its family: the signature must verify under the certificate found in the marshalled+unmarshalled sp.Metadata() (redirect: crypto/rsa or crypto/ecdsa over the octets SAMLRequest=..&SigAlg=.. cut from the emitted URL; enveloped: digest and SignatureValue recomputed with crypto/* over goxmldsig-canonicalised octets AND an independent goxmldsig validation context); MustReject = unknown method or method/key family mismatch: an error and no message; non-trivial = MustAccept or MustReject"
+	rep.Rule = "every terminal state of spec/SPEmit.tla family sig (8 method URIs + unknown + unset x 7 keys x AuthnRequest/LogoutRequest/LogoutResponse in both bindings + ArtifactResolve x relay-state classes x endpoint query; x WantAuthnRequestsSigned absent / true / false in the IdP's metadata x sp.Intermediates none / one / two CA certificates of a real chain) is run through the real Make* functions; MustAccept = supported method with a key of its family, whatever the IdP's metadata wants: the signature must verify under the FIRST certificate of the signing KeyDescriptor found in the marshalled+unmarshalled sp.Metadata() (redirect: crypto/rsa or crypto/ecdsa over the octets SAMLRequest=..&SigAlg=.. cut from the emitted URL; enveloped: digest and SignatureValue recomputed with crypto/* over goxmldsig-canonicalised octets AND an independent goxmldsig validation context); MustReject = unknown method or method/key family mismatch: an error and no message; non-trivial = MustAccept or MustReject"
 	rep.Assume("ECDSA signature values are accepted as ASN.1 DER or as raw r||s")
 	rep.Assume("exclusive canonicalisation octets come from goxmldsig's canonicaliser (also used by the code under test); hashing and public-key verification use the Go standard library")
 	lines := loadLines(t, "vectors.ndjson")
@@ -337,6 +352,7 @@ func TestC13(t *testing.T) {
 	}
 	var mu sync.Mutex
 	cover := map[string]int{}
+	env := map[string]int{}
 	for r := 0; r < reps; r++ {
 		parallel(len(vecs), func(i int) {
 			v := vecs[i]
@@ -351,11 +367,20 @@ func TestC13(t *testing.T) {
 			}
 			mu.Lock()
 			cover[v.Class+"/"+v.In.Kind+"-"+v.In.Binding+"/"+res.Sigform]++
+			if v.Class != "DontCare" {
+				// counted by the form the statement REQUIRES, not by what came out (vacuity control below)
+				env[fmt.Sprintf("%s/idpwants=%s/chain=%s/%s", v.Class, v.idpWants(), v.chain(), v.Required.Form)]++
+			}
 			mu.Unlock()
 			if len(res.Findings) == 0 {
 				// the model's prediction of outcome and signature form (required variant)
 				if res.Outcome != v.Pred.Req.Outcome || (res.Outcome == "ok" && res.Sigform != v.Pred.Req.Sigform) {
 					rep.DriftCase("C13:"+id, "outcome/signature form differs from the model", map[string]any{"observed": res, "predicted": v.Pred.Req})
+				}
+				// what else the signing KeyDescriptor lists after the verifying certificate is left open by the
+				// statement; the model says sp.Certificate followed by sp.Intermediates in order
+				if v.Class == "MustAccept" && v.Published != nil && res.Published != nil && strings.Join(res.Published, ",") != strings.Join(v.Published, ",") {
+					rep.DriftCase("C13:"+id+":published", "certificates of the published signing KeyDescriptor differ from the model", map[string]any{"observed": res.Published, "predicted": v.Published})
 				}
 			}
 			if i%701 == 0 && r == 0 {
@@ -364,6 +389,30 @@ func TestC13(t *testing.T) {
 		})
 	}
 	rep.Extra["c13_cases"] = cover
+	rep.Extra["c13_environment"] = env
+	// every value of the two environment dimensions must have been run on a signing case of every form
+	for _, w := range []string{"absent", "true", "false"} {
+		for _, form := range []string{"detached", "enveloped"} {
+			n := 0
+			for _, ch := range []string{"none", "one", "two"} {
+				n += env[fmt.Sprintf("MustAccept/idpwants=%s/chain=%s/%s", w, ch, form)]
+			}
+			if n == 0 {
+				rep.Break("vacuous: no %s signing case with WantAuthnRequestsSigned %s in the IdP's metadata", form, w)
+			}
+		}
+	}
+	for _, ch := range []string{"none", "one", "two"} {
+		for _, form := range []string{"detached", "enveloped"} {
+			n := 0
+			for _, w := range []string{"absent", "true", "false"} {
+				n += env[fmt.Sprintf("MustAccept/idpwants=%s/chain=%s/%s", w, ch, form)]
+			}
+			if n == 0 {
+				rep.Break("vacuous: no %s signing case with certificate chain %s", form, ch)
+			}
+		}
+	}
 	if rep.Classes["MustAccept"] == 0 || rep.Classes["MustReject"] == 0 {
 		rep.Break("vacuous: no MustAccept or no MustReject vectors")
 	}
@@ -440,6 +489,56 @@ func c13InstrumentSelfTest() string {
 			return "signature over own octets not recognised behind an existing query"
 		}
 	}
+	// the environment dimensions: the harness's chain is a real chain, the settings reach the SP value, and a
+	// CA certificate does not verify what the SP's key signed (the verifier can tell the certificates apart)
+	for _, kn := range []string{"rsa2048", "ec384"} {
+		method := spemitMethodURI["rsa-sha256"]
+		if kn == "ec384" {
+			method = spemitMethodURI["ecdsa-sha384"]
+		}
+		for _, ch := range []string{"none", "one", "two"} {
+			v := &spemitVec{}
+			v.Cfg.Key, v.Cfg.Method, v.Cfg.Chain, v.Cfg.IdpWants = kn, "x", ch, "false"
+			s := spemitSP(v, &spemitConc{MethodURI: method, EntityIDSet: true})
+			if len(s.Intermediates) != map[string]int{"none": 0, "one": 1, "two": 2}[ch] {
+				return "certificate chain " + ch + " not installed"
+			}
+			if w := s.IDPMetadata.IDPSSODescriptors[0].WantAuthnRequestsSigned; w == nil || *w {
+				return "WantAuthnRequestsSigned=false not installed in the IdP metadata"
+			}
+			if !s.Certificate.PublicKey.(interface{ Equal(crypto.PublicKey) bool }).Equal(spemitKey(kn).Key.Public()) {
+				return "sp.Certificate does not certify sp.Key"
+			}
+			octets := []byte("SAMLRequest=abc&SigAlg=" + url.QueryEscape(method))
+			h := spemitHashOf[method].New()
+			h.Write(octets)
+			sig, err := spemitKey(kn).Key.Sign(rand.Reader, h.Sum(nil), spemitHashOf[method])
+			if err != nil {
+				return err.Error()
+			}
+			if err := spemitVerifyRaw(s.Certificate.PublicKey, method, octets, sig); err != nil {
+				return "signature by the SP key rejected under sp.Certificate: " + err.Error()
+			}
+			issuer := s.Certificate
+			for i, ca := range s.Intermediates {
+				if err := issuer.CheckSignatureFrom(ca); err != nil {
+					return fmt.Sprintf("harness chain is not a chain at %d: %v", i, err)
+				}
+				if spemitVerifyRaw(ca.PublicKey, method, octets, sig) == nil {
+					return "signature by the SP key verifies under a CA certificate"
+				}
+				issuer = ca
+			}
+			// the reader of the published descriptor takes concatenated DER in order
+			var der []byte
+			for _, c := range append([]*x509.Certificate{s.Certificate}, s.Intermediates...) {
+				der = append(der, c.Raw...)
+			}
+			if got, err := x509.ParseCertificates(der); err != nil || len(got) != 1+len(s.Intermediates) || !got[0].Equal(s.Certificate) {
+				return "concatenated DER certificates are not read back in order"
+			}
+		}
+	}
 	return ""
 }
 
@@ -465,7 +564,7 @@ func init() {
 func TestC13History(t *testing.T) {
 	rep := NewReport("C13")
 	defer rep.Finish(t)
-	rep.Rule = "every sequence of up to MaxLen (key, method) configurations from spec/SPEmitHistory.tla is replayed on one ServiceProvider value (exported fields reassigned between emissions); after each reassignment one message of every kind/binding is emitted and judged exactly like the stateless cases"
+	rep.Rule = "every sequence of up to MaxLen (key, method) configurations from spec/SPEmitHistory.tla is replayed on one ServiceProvider value (exported fields reassigned between emissions, among them the IdP metadata with WantAuthnRequestsSigned absent / true / false and the certificate chain none / one / two, drawn per emission); after each reassignment one message of every kind/binding is emitted and judged exactly like the stateless cases"
 	lines := loadLines(t, "hist.ndjson")
 	if len(lines) == 0 {
 		rep.Break("no histories")
@@ -508,6 +607,10 @@ func TestC13History(t *testing.T) {
 				if kbx[0] == "logoutreq" {
 					v.In.NameID = []string{"plain"}
 				}
+				// the rest of the configuration in force changes with it: what the IdP's metadata wants, the SP's
+				// certificate chain (drawn per emission; sp.Certificate / sp.Intermediates / sp.IDPMetadata are
+				// reassigned like the other exported fields)
+				v.Cfg.IdpWants, v.Cfg.Chain = c13EnvWants[rng.Intn(len(c13EnvWants))], c13EnvChains[rng.Intn(len(c13EnvChains))]
 				v.Required.Form, v.Required.Policy = "enveloped", "transient"
 				if kbx[0] == "authn" && kbx[1] == "redirect" {
 					v.Required.Form = "detached"
